@@ -51,6 +51,8 @@ toStringPiece_narrow0 toStringPiece_narrow0_arg append1_widen_signed0 narrowing_
 append1_call0_append append2_char_call0_ensureWritableBytes append2_char_call1_hasWritten append2_void_call0_append
 findEOL0_memchr0_len findEOL1_memchr0_len peekInt64_memcpy0_len peekInt32_memcpy0_len peekInt16_memcpy0_len
 retrieveAsString_string0_len
+retrieve_tree retrieveAll_tree retrieveUntil_tree retrieveAsString_tree ensureWritableBytes_tree makeSpace_tree readFd_tree
+hasWritten_tree unwrite_tree prepend_tree append2_char_tree shrink_tree swap_tree makeSpace_let_readable readFd_let_writable
 """.split()
 
 
@@ -60,7 +62,7 @@ VOCAB = ["readerIndex", "writerIndex", "buffer_size",                 # private 
          "peek", "beginWrite",                                        # pointers (addresses)
          "kCheapPrepend",
          "len", "initialSize", "reserve", "start", "end", "size",     # parameters (size = str.size())
-         "n", "writable", "readable", "x", "result"]                  # locals
+         "n", "writable", "readable", "iovcnt", "x", "result"]        # locals
 
 
 class G(cxxast.GExpr):
@@ -162,6 +164,17 @@ def record_text():
         args = " ".join("v" if w == v else "(o_%s o)" % w for w in VOCAB)
         out.append("Definition set_%s (v : Z) (o : obs) : obs :=\n  mkObs %s." % (v, args))
     out.append("")
+    out += ["(* the statement tree of a member function (review E-3): control structure with every fact at its place *)",
+            "Inductive stmt : Type :=",
+            "| SAssert (c : obs -> bool)                                  (* assert(c) *)",
+            "| SSet (member : string) (e : obs -> Z)                      (* member = e  (readerIndex / writerIndex / iov_len) *)",
+            "| SLet (x : string) (set : Z -> obs -> obs) (e : obs -> Z)   (* integer local x initialised with e *)",
+            "| SHavoc (x : string)                                        (* local whose initialiser is not translated *)",
+            "| SCall (callee : string) (args : list (obs -> Z))           (* call of a member function, its integer arguments *)",
+            "| SIf (c : obs -> bool) (th el : list stmt)",
+            "| SRet (e : obs -> Z)                                        (* return of the single integer result *)",
+            "| SOther (what : string).                                    (* anything else: std::copy, memcpy, *savedErrno = errno, ... *)",
+            ""]
     out.append("Ltac obs_red := cbv beta iota delta [%s\n  %s]." % (" ".join("o_" + v for v in VOCAB),
                                                                     " ".join("set_" + v for v in VOCAB)))
     out.append("")
@@ -219,7 +232,20 @@ def cast_facts(fname, body, defs, order, rel):
 FREE_LEN_CALLS = {"memchr": 2, "memcpy": 2}      # free function -> index of its length argument
 
 
+OBSERVERS = ("readableBytes", "writableBytes", "prependableBytes", "peek", "beginWrite", "begin", "size", "data", "capacity",
+             "operator*", "operator[]")
+
+
+def qs(x):
+    return '"%s"%%string' % x.replace('"', "'")
+
+
 def facts_of(fname, fn, defs, order, rel):
+    """facts of one member function (names as documented at the top) AND its statement tree <f>_tree (review E-3):
+    the control structure of the body with every fact at its place --
+      SAssert c | SSet member e | SLet local setter e | SHavoc local | SCall callee [integer args] | SIf c then else |
+      SRet e | SOther tag
+    so that which branch a statement is in, its order, and its presence are part of what the link lemmas compare."""
     cnt = {"if": 0, "assert": 0, "set": 0, "call": 0, "free": 0, "ctor": 0}
     try:
         cast_facts(fname, cxxast.body(fn), defs, order, rel)
@@ -238,40 +264,30 @@ def facts_of(fname, fn, defs, order, rel):
                         continue
                     x = a[0]
                 emit(defs, order, "%s_init_%s" % (fname, m), x, "Z", text_of(c, rel))
-    rets = []
+    body = cxxast.body(fn)
+    int_rets = [n for n in cxxast.walk(body) if n.get("kind") == "ReturnStmt" and
+                [c for c in n.get("inner", []) if isinstance(c, dict)] and is_int([c for c in n.get("inner", []) if isinstance(c, dict)][0])]
+    single_ret = len(int_rets) == 1
+    ret_done = []
 
-    def visit(n):
+    def kids_of(n):
+        return [c for c in n.get("inner", []) or [] if isinstance(c, dict)]
+
+    def ok(name):
+        return name in defs and not defs[name].startswith("(* untranslated")
+
+    def generic(n, tags):
+        """facts nested in an expression / unstructured statement; returns the SCall entries of the member calls in it
+        (inner calls first); free-function callee names are collected in tags"""
         k = n.get("kind")
-        kids = [c for c in n.get("inner", []) or [] if isinstance(c, dict)]
-        if k == "IfStmt":
-            emit(defs, order, "%s_if%d" % (fname, cnt["if"]), kids[0], "bool", "if (" + text_of(kids[0], rel) + ")")
-            cnt["if"] += 1
-            for c in kids[1:]:
-                visit(c)
-            return
-        if is_assert(n):
-            emit(defs, order, "%s_assert%d" % (fname, cnt["assert"]), kids[0], "bool", assert_text(n))
-            cnt["assert"] += 1
-            return
-        if k in ("BinaryOperator", "CompoundAssignOperator") and n.get("opcode") in ("=", "+=", "-="):
-            m = lhs_member(kids[0])
-            if m is not None:
-                op = n["opcode"]
-                if op == "=":
-                    node = kids[1]
-                else:
-                    node = {"kind": "BinaryOperator", "opcode": op[0], "inner": [kids[0], kids[1]]}
-                emit(defs, order, "%s_set%d_%s" % (fname, cnt["set"], m), node, "Z", text_of(n, rel))
-                cnt["set"] += 1
-                return
-        if k == "ReturnStmt" and kids and is_int(kids[0]):
-            rets.append((kids[0], text_of(n, rel)))
-        if k == "VarDecl" and kids and cxxast.strip(kids[-1]).get("kind") == "ConditionalOperator" and not is_assert(cxxast.strip(kids[-1])):
-            emit(defs, order, "%s_let_%s" % (fname, n.get("name")), kids[-1], "Z", text_of(n, rel))
-            return
+        kids = kids_of(n)
+        res = []
+        mine = None
         if k == "CallExpr" and kids:
             callee = cxxast.strip(kids[0])
             nm = callee.get("referencedDecl", {}).get("name")
+            if nm and nm != "__assert_fail":
+                tags.append(nm)
             if nm in FREE_LEN_CALLS and len(kids) > 1 + FREE_LEN_CALLS[nm]:
                 emit(defs, order, "%s_%s%d_len" % (fname, nm, cnt["free"]), kids[1 + FREE_LEN_CALLS[nm]], "Z", text_of(n, rel))
                 cnt["free"] += 1
@@ -280,27 +296,119 @@ def facts_of(fname, fn, defs, order, rel):
             if len(args) == 2 and is_int(args[1]):          # string(ptr, len)
                 emit(defs, order, "%s_string%d_len" % (fname, cnt["ctor"]), args[1], "Z", text_of(n, rel))
                 cnt["ctor"] += 1
+                tags.append("string")
         if k == "CXXMemberCallExpr":
             callee = cxxast.strip(kids[0])
             args = [c for c in kids[1:] if c.get("kind") != "CXXDefaultArgExpr"]
             iargs = [a for a in args if is_int(a)]
-            if callee.get("kind") == "MemberExpr" and iargs:
+            if callee.get("kind") == "MemberExpr":
                 nm = callee.get("name")
-                base = "%s_call%d_%s" % (fname, cnt["call"], nm)
-                cnt["call"] += 1
-                for j, a in enumerate(iargs):
-                    emit(defs, order, base if len(iargs) == 1 else "%s_arg%d" % (base, j), a, "Z", text_of(n, rel))
+                names = []
+                if iargs:
+                    base = "%s_call%d_%s" % (fname, cnt["call"], nm)
+                    cnt["call"] += 1
+                    for j, a in enumerate(iargs):
+                        an = base if len(iargs) == 1 else "%s_arg%d" % (base, j)
+                        emit(defs, order, an, a, "Z", text_of(n, rel))
+                        names.append(an if ok(an) else "UNTRANSLATED_" + an)
+                obj = kids_of(callee)[0] if kids_of(callee) else {}
+                while obj.get("kind") in ("ImplicitCastExpr", "ParenExpr") and kids_of(obj):
+                    obj = kids_of(obj)[0]
+                prefix = "" if obj.get("kind") == "CXXThisExpr" else \
+                    (obj.get("name") or obj.get("referencedDecl", {}).get("name") or "?").rstrip("_") + "."
+                if nm not in OBSERVERS and not nm.startswith("operator"):
+                    mine = "SCall %s [%s]" % (qs(prefix + nm), "; ".join(names))
         for c in kids:
-            visit(c)
+            res += generic(c, tags)
+        if mine:
+            res.append(mine)
+        return res
 
-    visit(cxxast.body(fn))
-    if len(rets) == 1:
-        emit(defs, order, "%s_ret" % fname, rets[0][0], "Z", rets[0][1])
+    def unwrap(n):
+        while n.get("kind") in ("ParenExpr", "ExprWithCleanups") and len(kids_of(n)) == 1:
+            n = kids_of(n)[0]
+        return n
+
+    def tree(n):
+        k = n.get("kind")
+        kids = kids_of(n)
+        if k == "CompoundStmt":
+            res = []
+            for c in kids:
+                res += tree(c)
+            return res
+        if k == "IfStmt":
+            name = "%s_if%d" % (fname, cnt["if"])
+            emit(defs, order, name, kids[0], "bool", "if (" + text_of(kids[0], rel) + ")")
+            cnt["if"] += 1
+            th = tree(kids[1]) if len(kids) > 1 else []
+            el = tree(kids[2]) if len(kids) > 2 else []
+            return ["SIf %s [%s] [%s]" % (name if ok(name) else "UNTRANSLATED_" + name, "; ".join(th), "; ".join(el))]
+        u = unwrap(n)
+        uk = u.get("kind")
+        ukids = kids_of(u)
+        if is_assert(u):
+            name = "%s_assert%d" % (fname, cnt["assert"])
+            emit(defs, order, name, ukids[0], "bool", assert_text(u))
+            cnt["assert"] += 1
+            return ["SAssert %s" % (name if ok(name) else "UNTRANSLATED_" + name)]
+        if uk in ("BinaryOperator", "CompoundAssignOperator") and u.get("opcode") in ("=", "+=", "-="):
+            m = lhs_member(ukids[0])
+            if m is not None:
+                op = u["opcode"]
+                node = ukids[1] if op == "=" else {"kind": "BinaryOperator", "opcode": op[0], "inner": [ukids[0], ukids[1]]}
+                name = "%s_set%d_%s" % (fname, cnt["set"], m)
+                emit(defs, order, name, node, "Z", text_of(u, rel))
+                cnt["set"] += 1
+                return ["SSet %s %s" % (qs(m), name if ok(name) else "UNTRANSLATED_" + name)]
+        if k == "DeclStmt":
+            res = []
+            for v in kids:
+                if v.get("kind") != "VarDecl":
+                    continue
+                vk = kids_of(v)
+                vn = v.get("name", "?")
+                if vk and is_int(v):
+                    name = "%s_let_%s" % (fname, vn)
+                    emit(defs, order, name, vk[-1], "Z", text_of(v, rel))
+                    if ok(name) and vn in VOCAB:
+                        res.append("SLet %s set_%s %s" % (qs(vn), vn, name))
+                        continue
+                    del defs[name]                 # untranslatable, or a local no fact reads: no fact
+                    order.remove(name)
+                tags = []
+                res += generic(v, tags)
+                res.append("SHavoc %s" % qs(vn))
+            return res
+        if k == "ReturnStmt":
+            if kids and is_int(kids[0]) and single_ret:
+                name = "%s_ret" % fname
+                ret_done.append((kids[0], text_of(n, rel)))
+                return ["SRET"]                      # patched below, once the fact has been emitted in its old place
+            tags = []
+            res = generic(n, tags)
+            return res + ["SOther %s" % qs("return")]
+        tags = []
+        res = generic(u, tags)
+        if uk == "CXXMemberCallExpr" and res:
+            return res                               # a statement that IS a member call (its nested calls first)
+        tag = tags[0] if tags else {"BinaryOperator": "assign", "CompoundAssignOperator": "assign",
+                                    "CXXOperatorCallExpr": "operator", "NullStmt": "empty"}.get(uk, uk or "?")
+        return res + ["SOther %s" % qs(tag)]
+
+    t = tree(body)
+    if ret_done:
+        emit(defs, order, "%s_ret" % fname, ret_done[0][0], "Z", ret_done[0][1])
+        rn = "%s_ret" % fname
+        t = [x.replace("SRET", "SRet %s" % rn) if ok(rn) else x.replace("SRET", "SOther %s" % qs("return")) for x in t]
+    nm = "%s_tree" % fname
+    defs[nm] = "Definition %s : list stmt :=\n  [%s]." % (nm, ";\n   ".join(t))
+    order.append(nm)
 
 
 def main():
     out = ["(* GENERATED by lib/gen_C10.py from %s/%s (and the Buffer.h it includes) -- do not edit *)" % (cxxast.REPO, REL),
-           "From Coq Require Import ZArith Bool.", "Local Open Scope Z_scope.", ""]
+           "From Coq Require Import ZArith Bool String List.", "Import ListNotations.", "Local Open Scope Z_scope.", ""]
     out += record_text()
     msgs, defs, order = [], {}, []
     try:
